@@ -15,6 +15,7 @@ pub fn lanes() -> Vec<Lane> {
         Lane { name: "set-get", count: |c| rows().len() as u64 * 6 * if c.thorough() { 200 } else { 12 }, run: setget_lane },
         Lane { name: "sequences", count: |c| if c.thorough() { 200_000 } else { 12_000 }, run: sequences_lane },
         Lane { name: "read-side", count: |_| reads().len() as u64, run: read_lane },
+        Lane { name: "selection", count: |c| if c.thorough() { 100_000 } else { 8_000 }, run: selection_lane },
     ]
 }
 
@@ -789,4 +790,47 @@ fn read_lane(ctx: &mut Ctx, idx: u64) {
     }
     ctx.distinct_exact += 1;
     ctx.sample(|| json!({"getter": rd.what, "text": rd.text, "expected": rd.expect}));
+}
+
+/// a control file's source paragraph and binary paragraphs are found by their Source and Package fields,
+/// wherever they stand in the file
+fn selection_lane(ctx: &mut Ctx, idx: u64) {
+    let mut r = ctx.rng();
+    let mut text = super::c07::gen_control(&mut r, idx % 4 == 0);
+    // sometimes a leading paragraph of neither kind, and leading comments
+    if r.chance(1, 5) {
+        text = format!("X-Note: not a package\n\n{}", text);
+    }
+    if r.chance(1, 5) {
+        text = format!("# leading comment\n\n{}", text);
+    }
+    // model from the independent line scanner
+    let Some(sc) = crate::model::read_wellformed(&text) else {
+        ctx.count("skipped:not-scannable");
+        return;
+    };
+    let paras = crate::model::content(&sc);
+    let want_source = paras.iter().find(|p| p.iter().any(|(k, _)| k == "Source")).and_then(|p| p.iter().find(|(k, _)| k == "Source").map(|(_, v)| v.clone()));
+    let want_bins: Vec<Option<String>> = paras.iter().filter(|p| p.iter().any(|(k, _)| k == "Package")).map(|p| p.iter().find(|(k, _)| k == "Package").map(|(_, v)| v.clone())).collect();
+    let res = guard(text.len() * 4 + 1024, || {
+        control::Control::from_str(&text).map(|c| (c.source().and_then(|s| s.name()), c.binaries().map(|b| b.name()).collect::<Vec<_>>(), c.source().map(|s| s.as_deb822().items().count())))
+    });
+    match res {
+        Err(f) => ctx.violation(&format!("{}|Control::source/binaries|selection", f.class()), json!({"input": clip(&text), "failure": f.json()})),
+        Ok(Err(_)) => ctx.count("skipped:input-rejected"),
+        Ok(Ok((src, bins, nfields))) => {
+            if src != want_source {
+                ctx.violation("wrong-source-paragraph|Control::source|selection", json!({"input": clip(&text), "expected": want_source, "got": src}));
+            } else if bins != want_bins {
+                ctx.violation("wrong-binary-paragraphs|Control::binaries|selection", json!({"input": clip(&text), "expected": want_bins, "got": bins}));
+            } else {
+                let want_n = paras.iter().find(|p| p.iter().any(|(k, _)| k == "Source")).map(|p| p.len());
+                if nfields != want_n {
+                    ctx.violation("source-paragraph-content|Control::source|selection", json!({"input": clip(&text), "expected_fields": want_n, "got": nfields}));
+                }
+            }
+        }
+    }
+    ctx.nontrivial(text.as_bytes());
+    ctx.sample(|| json!({"input": clip(&text), "source": want_source, "binaries": want_bins}));
 }
